@@ -198,13 +198,15 @@ def _residue_gate(facts, pt, x, A, B, Pm):
     if pt[0] is not x:
         return False
     for a, t in facts.items():
+        # any established equation L == R (or refuted L != R) whose difference is ±(x³ + Ax + B − y²) modulo P
         if isinstance(a, Term) and a.op == "eq" and t is True:
             u, w_ = a.args
-            for l, rr in ((u, w_), (w_, u)):
-                if isinstance(rr, int) and rr == 0 and isinstance(l, Term) and l.op == "mod" and l.args[1] == Pm:
-                    d = to_poly(l.args[0], Pm, names)
-                    if (d - want).is_zero() or (d + want).is_zero():
-                        return True
+            try:
+                d = to_poly(u, Pm, names) - to_poly(w_, Pm, names)
+            except AnalysisError:
+                continue
+            if (d - want).is_zero() or (d + want).is_zero():
+                return True
     return False
 
 
